@@ -505,3 +505,154 @@ Theorem gen_step_PurgeMat : forall (lower : lbl -> lbl) st m,
   /\ state_eqv (fst (py_CharacterMatrix_purge_taxon_namespace st m)) (fst (step lower st (PurgeMat m))).
 Proof. exact step_PurgeMat_gen. Qed.
 Print Assumptions gen_step_PurgeMat.
+
+(* ================= wave 7: shallow copies of containers, caller-owned memos ================= *)
+(* Model/C11W7Model.v extends the history language: `step7 lower x o : xstate * out` over
+   x = (state of C11Model, store of memo objects); op7 = Base (every operation above) | FreeTaxon | NewMemo |
+   CopyMat | CopyList (copy.copy / clone(0)) | AppendM | InsertM | MigrateTreeM | ReconstructTreeM |
+   MigrateListM | ReconstructListM | MigrateMatM | ReconstructMatM (the documented keyword
+   taxon_mapping_memo=<memo object k>, filled in place, re-usable across namespaces). *)
+From DV Require Import Model.C11W7Model Model.C11ObjModel Proofs.C11W7 Proofs.C11W7b Proofs.C11W7Obj Proofs.C11W7Examples.
+From DV Require Import Model.C11ObjPrims Gen.ContainersCopyObj Proofs.C11GenCopyObj.
+
+(* the closure invariant is preserved by every operation of the extended language, under the discipline of
+   the operation without the keyword and the same error proviso: whatever the caller's memo contains *)
+Theorem closed_step7 : forall (lower : lbl -> lbl) (x : xstate) (o : op7),
+  Closed (x_st x) -> disciplined7 x o = true -> snd (step7 lower x o) <> ORecon ->
+  Closed (x_st (fst (step7 lower x o))).
+Proof. exact closed_step7_l. Qed.
+Print Assumptions closed_step7.
+
+Theorem closed_reachable7 : forall (lower : lbl -> lbl) (ops : list op7),
+  hist_ok7 lower x_init ops = true -> Closed (x_st (run_state7 lower x_init ops)).
+Proof. exact closed_reachable7_l. Qed.
+Print Assumptions closed_reachable7.
+
+(* the old language is the Base fragment: same state change, same outcome, memo store untouched *)
+Theorem base_step7 : forall (lower : lbl -> lbl) (x : xstate) (o : op),
+  step7 lower x (Base o) = (mkX (fst (step lower (x_st x) o)) (x_memos x), snd (step lower (x_st x) o)).
+Proof. exact base_step_l. Qed.
+Print Assumptions base_step7.
+
+(* non-vacuity: five histories over the extended language (matrix copy then migrate / unify one of the two;
+   tree-list copy; explicit mapping to a free Taxon through append / insert / Tree.migrate; one memo carried
+   across three namespaces; matrix migrations under a memo) keep to the discipline *)
+Theorem hist_ok7_example :
+  hist_ok7 w7_lower x_init w7_history0 = true /\ hist_ok7 w7_lower x_init w7_history1 = true
+  /\ hist_ok7 w7_lower x_init w7_history2 = true /\ hist_ok7 w7_lower x_init w7_history3 = true
+  /\ hist_ok7 w7_lower x_init (firstn 24 w7_history4) = true
+  /\ length (s_mats (x_st (run_state7 w7_lower x_init w7_history0))) = 3
+  /\ length (x_memos (run_state7 w7_lower x_init w7_history4)) = 2.
+Proof. exact w7_hist_ok_l. Qed.
+Print Assumptions hist_ok7_example.
+
+(* ---- the caller's memo (seeded change C11-8 removes exactly the clause `In t (members ...)`) ----
+   tree.migrate_taxon_namespace(n, unify_taxa_by_label=True, taxon_mapping_memo=memo k), whatever the memo
+   contains: the call succeeds, the tree refers to n, EVERY node taxon is a member of n afterwards, a node
+   whose taxon a is a key of the memo carries the memo's value t - and t is a member of n -, and no entry
+   the caller supplied is overwritten *)
+Theorem memo_supplied_taxon_is_member : forall (lower : lbl -> lbl) (x : xstate) (tr n k : oid),
+  valid_tree (x_st x) tr = true -> valid_ns (x_st x) n = true -> valid_memo x k = true ->
+  let x' := fst (step7 lower x (MigrateTreeM tr n true k)) in
+  snd (step7 lower x (MigrateTreeM tr n true k)) = OUnit
+  /\ t_ns (gettree (x_st x') tr) = n
+  /\ (forall y, In y (t_refs (gettree (x_st x') tr)) -> In y (members (x_st x') n))
+  /\ (forall i a t, nth_error (t_refs (gettree (x_st x) tr)) i = Some a -> alookup a (getmemo x k) = Some t ->
+        nth_error (t_refs (gettree (x_st x') tr)) i = Some t /\ In t (members (x_st x') n))
+  /\ (forall a t, alookup a (getmemo x k) = Some t -> alookup a (getmemo x' k) = Some t).
+Proof. exact migrate_tree_memo_step_l. Qed.
+Print Assumptions memo_supplied_taxon_is_member.
+
+(* its hypotheses hold in a state where the memo's target is a free Taxon, in no namespace before the call *)
+Theorem memo_supplied_taxon_example :
+  let x := run_state7 w7_lower x_init (firstn 18 w7_history2) in
+  valid_tree (x_st x) 1 = true /\ valid_ns (x_st x) 0 = true /\ valid_memo x 0 = true
+  /\ nth_error (t_refs (gettree (x_st x) 1)) 0 = Some 2 /\ alookup 2 (getmemo x 0) = Some 6
+  /\ memb 6 (members (x_st x) 0) = false
+  /\ memb 6 (members (x_st (fst (step7 w7_lower x (MigrateTreeM 1 0 true 0)))) 0) = true
+  /\ t_refs (gettree (x_st (fst (step7 w7_lower x (MigrateTreeM 1 0 true 0)))) 1) = [6; 6].
+Proof. exact w7_memo_example_l. Qed.
+Print Assumptions memo_supplied_taxon_example.
+
+(* ---- frame: an operation on one matrix object changes no other matrix object ---- *)
+Theorem matrix_op_frame : forall (lower : lbl -> lbl) (x : xstate) (o : op7) (m j : oid),
+  mat_target o = Some m -> j <> m -> j < length (s_mats (x_st x)) ->
+  nth_error (s_mats (x_st (fst (step7 lower x o)))) j = nth_error (s_mats (x_st x)) j.
+Proof. exact matrix_op_frame_l. Qed.
+Print Assumptions matrix_op_frame.
+
+(* copy.copy(m) / m.clone(0) returns a new matrix c with m's namespace and row keys, m is untouched, and every
+   later new_sequence / [] = / migrate_ / reconstruct_ / update_ / purge_taxon_namespace (with or without memo)
+   / copy applied to one of the two leaves the other one exactly as it was *)
+Theorem shallow_copy_independent : forall (lower : lbl -> lbl) (x : xstate) (m : oid),
+  valid_mat (x_st x) m = true ->
+  let x1 := fst (step7 lower x (CopyMat m)) in
+  let c := length (s_mats (x_st x)) in
+  snd (step7 lower x (CopyMat m)) = OId c
+  /\ getmat (x_st x1) c = getmat (x_st x) m
+  /\ getmat (x_st x1) m = getmat (x_st x) m
+  /\ (forall o, mat_target o = Some c -> getmat (x_st (fst (step7 lower x1 o))) m = getmat (x_st x) m)
+  /\ (forall o, mat_target o = Some m -> getmat (x_st (fst (step7 lower x1 o))) c = getmat (x_st x) m).
+Proof. exact shallow_copy_independent_l. Qed.
+Print Assumptions shallow_copy_independent.
+
+(* ---- object level (Model/C11ObjModel.v): matrices hold a reference to a dict object, operations mutate
+   that object in place; __copy__ transcribed as in the library (fresh dict, entries copied) ---- *)
+(* no dict object is held by two matrix objects, in any state of any history of the library's operations *)
+Theorem no_row_dict_shared : forall (lower : lbl -> lbl) (ops : list oop),
+  forallb oop_ok ops = true ->
+  let os := o_run lower o_init ops in
+  NoDup (map om_dict (o_mats os)) /\ (forall om, In om (o_mats os) -> om_dict om < length (o_dicts os)).
+Proof. intros lower ops H. exact (no_dict_shared_history_l lower ops o_init H no_dict_shared_init). Qed.
+Print Assumptions no_row_dict_shared.
+
+(* and therefore the object level, read through the dict store, is the value level: the closure theorems
+   above are theorems about the matrix OBJECTS *)
+Theorem object_level_refines_value_level : forall (lower : lbl -> lbl) (ops : list oop) (os : ostate) (mm : list memo),
+  forallb oop_ok ops = true ->
+  (NoDup (map om_dict (o_mats os)) /\ (forall om, In om (o_mats os) -> om_dict om < length (o_dicts os))) ->
+  read (o_run lower os ops) = x_st (run_state7 lower (mkX (read os) mm) (map embed ops)).
+Proof. exact object_level_refines_value_level_l. Qed.
+Print Assumptions object_level_refines_value_level.
+
+Theorem faithful_copy_example :
+  let os := o_run al_lower o_init (al_prefix ++ [OCopy 0; OOn (MigrateMat 1 1 true)]) in
+  no_dict_sharedb os = true /\ closedb (read os) = true
+  /\ getmat (read os) 0 = mkMat 0 [0; 1] /\ getmat (read os) 1 = mkMat 1 [2; 3].
+Proof. exact faithful_copy_example_l. Qed.
+Print Assumptions faithful_copy_example.
+
+(* with `other._taxon_sequence_map = self._taxon_sequence_map` (seeded change C11-7) the invariant fails at the
+   copy, and migrating the COPY re-keys the ORIGINAL: it keeps ns0 but its rows are taxa of ns1 - not Closed,
+   and not what the value level computes *)
+Theorem aliasing_copy_refuted :
+  let os1 := o_run al_lower o_init (al_prefix ++ [OCopyAlias 0]) in
+  let os2 := o_step al_lower os1 (OOn (MigrateMat 1 1 true)) in
+  ~ (NoDup (map om_dict (o_mats os1)) /\ (forall om, In om (o_mats os1) -> om_dict om < length (o_dicts os1)))
+  /\ Closed (read os1)
+  /\ getmat (read os2) 0 = mkMat 0 [2; 3]
+  /\ ~ Closed (read os2)
+  /\ read os2 <> x_st (fst (step7 al_lower (mkX (read os1) []) (embed (OOn (MigrateMat 1 1 true))))).
+Proof. exact alias_copy_refuted_l. Qed.
+Print Assumptions aliasing_copy_refuted.
+
+(* translator tie, object level: the code generated on every run from the CURRENT text of
+   CharacterMatrix.__copy__ (py/dv/gen_containers_copy_obj.py -> coq/Gen/ContainersCopyObj.v) is the OCopy step of
+   the object-level model - a new dict object, filled with the source's entries - for every receiver that exists
+   and holds a dict (whose keys, as in any Python dict, are pairwise different).  If __copy__ binds the source's
+   dict instead, the generated code is o_rebind_dict and this theorem no longer compiles. *)
+Theorem gen_copy_obj : forall (lower : lbl -> lbl) (os : ostate) (m : oid),
+  m < length (o_mats os) -> om_dict (nth m (o_mats os) domat) < length (o_dicts os) ->
+  NoDup (nth (om_dict (nth m (o_mats os) domat)) (o_dicts os) []) ->
+  py_CharacterMatrix___copy__ os m = (o_step lower os (OCopy m), length (o_mats os)).
+Proof. exact gen_copy_obj_l. Qed.
+Print Assumptions gen_copy_obj.
+
+Theorem gen_copy_obj_example :
+  let os := o_run al_lower o_init al_prefix in
+  0 < length (o_mats os) /\ om_dict (nth 0 (o_mats os) domat) < length (o_dicts os)
+  /\ NoDup (nth (om_dict (nth 0 (o_mats os) domat)) (o_dicts os) [])
+  /\ o_dicts (fst (py_CharacterMatrix___copy__ os 0)) = [[0; 1]; [0; 1]]
+  /\ map om_dict (o_mats (fst (py_CharacterMatrix___copy__ os 0))) = [0; 1].
+Proof. exact gen_copy_obj_example_l. Qed.
+Print Assumptions gen_copy_obj_example.
